@@ -28,7 +28,7 @@ def make(spec, layout="C"):
     if layout == "T":
         x, m = x.T, m.T
     elif layout == "F":
-        x = x.copy(order="F")
+        x, m = x.copy(order="F"), numpy.asfortranarray(m)      # the model mirrors the layout (orders 'A' and 'K' depend on it)
     return x, m, wf(x, "input") or denotes(x, m, f"input in layout {layout}")
 
 
@@ -37,14 +37,17 @@ def ok(r, want, names, dtype, what="result"):
     import numpoly
     if isinstance(r, Raised):
         return f"{what}: numpoly raised {r.text} where numpy returns an array of shape {numpy.shape(want)}"
-    want = numpy.asarray(want, dtype=object)
+    want = numpy.array(want, dtype=object)
     for idx in numpy.ndindex(*want.shape):        # numpy pads with the integer 0 (diag): the zero polynomial
         want[idx] = want[idx] if isinstance(want[idx], MPoly) else MPoly.const(want[idx])
     if not isinstance(r, numpoly.ndpoly):
         return f"{what}: {type(r).__name__} instead of ndpoly"
     if tuple(r.shape) != want.shape:
         return f"{what}: shape {tuple(r.shape)}, numpy gives {want.shape}"
-    err = (wf(r, what) or denotes(r, want, what)) if want.size else None     # size 0: no element to compare
+    try:
+        err = (wf(r, what) or denotes(r, want, what)) if want.size else None     # size 0: no element to compare
+    except Exception as e:
+        err = f"{what}: cannot be read as a polynomial array ({type(e).__name__}: {e})"
     if err:
         return err
     if names is not None and (tuple(r.names) != tuple(names) if isinstance(names, (list, tuple)) else not names(set(r.names))):
